@@ -12,7 +12,10 @@ pub fn price_s(p: u32) -> i64 {
     } else if p == 0 {
         0
     } else {
-        p as i64 - off
+        let k = crate::price_scale() as i64;
+        let x = p as i64 - off;
+        // (a price that is not a whole multiple of the scale equals no specification price: reported as a negative number)
+        if k == 1 { x } else if x % k == 0 { x / k } else { -(p as i64) }
     }
 }
 
@@ -97,17 +100,12 @@ pub fn mid2_s(mid: f64, bid: u32, ask: u32) -> Value {
     if m2.fract() != 0.0 || !m2.is_finite() {
         return json!(format!("non-integral 2*mid {}", m2));
     }
-    let mut m2 = m2 as i64;
-    let off = crate::price_offset() as i64;
-    if ask == u32::MAX {
-        m2 = m2 - (u32::MAX as i64) + SPEC_MAX_PRICE;
-    } else if ask != 0 {
-        m2 -= off;
+    // the getter must report (bid + ask) / 2 of the touch prices it reports itself; in the specification's number system that is
+    // the sum of the two translated prices (each side translated on its own: sentinels by value, limit prices by offset / scale)
+    if m2 as i128 != bid as i128 + ask as i128 {
+        return json!(format!("2*mid = {} but bid + ask = {}", m2, bid as u64 + ask as u64));
     }
-    if bid != 0 && bid != u32::MAX {
-        m2 -= off;
-    }
-    json!(m2)
+    json!(price_s(bid) + price_s(ask))
 }
 
 pub fn l2_value<const L: usize>(d: &Level2Data<L>) -> Value {
